@@ -6,7 +6,7 @@
    `ROps = ROpsE exp`.  All statements hold for every N >= 1, every weight
    vector w_i = e(lw_i) >= 0 of sum 1 and every offset 0 < u1 < 1/N. *)
 Require Import Reals ZArith QArith List Permutation Lra Lia.
-Require Import BFL.Ops BFL.ListOps BFL.C07_Model BFL.C07_ROps BFL.C07_Proofs.
+Require Import BFL.Ops BFL.ListOps BFL.C07_Model BFL.C07_ROps BFL.C07_Proofs BFL.C07_Partition BFL.C07_Rounding.
 Import ListNotations.
 Local Open Scope R_scope.
 
@@ -113,6 +113,31 @@ Theorem C07_lse_normalises (l : list R) : l <> [] ->
   sumR (map exp (lse_normalise ROps l)) = 1 /\ lse ROps (lse_normalise ROps l) = 0.
 Proof. exact (fun H => conj (lse_normalise_sum l H) (lse_normalised_zero l H)). Qed.
 
+(* ---- "up to rounding of the cumulative weights" ----
+   The loop of Resampling::resample run on ANY list c of cumulative weights (in particular the doubles the running sum
+   csw(i) = csw(i-1) + exp(w(i)) produces, read as reals), only required to be non-negative and non-decreasing.
+   Its last entry is free: it may fall short of the last comb point (then only the guard idx < N-1 stops the pointer
+   and the surplus goes to the last particle) or exceed 1.  clamp c = c with every entry cut at 1 and the last set to 1.
+   Particle i is selected a number of times that differs from N (clamp c_i - clamp c_{i-1}) by less than one. *)
+Theorem C07_count_bound_cumulative (e : R -> R) (c : list R) (u1 : R) :
+  let N := length c in
+  (0 < N)%nat -> chain 0 c -> 0 < u1 -> u1 * INR N < 1 ->
+  forall i, (i < N)%nat ->
+  Rabs (INR (count_occ Nat.eq_dec (res_loop (ROpsE e) c N u1 N 0 0) i)
+        - INR N * (nth i (clamp c) 0 - match i with O => 0 | Datatypes.S i' => nth i' (clamp c) 0 end)) < 1.
+Proof. exact (count_bound_cumulative e c u1). Qed.
+
+(* hence: if every computed cumulative weight is within delta of the exact one (weights w >= 0 of sum 1), every
+   particle is replicated a number of times within 1 + 2 N delta of N w_i  (delta = 0: C07_count_bound) *)
+Theorem C07_count_bound_rounded (e : R -> R) (w c : list R) (u1 delta : R) :
+  let N := length c in
+  (0 < N)%nat -> length w = N -> (forall x, In x w -> 0 <= x) -> sumR w = 1 ->
+  chain 0 c -> 0 < u1 -> u1 * INR N < 1 ->
+  (forall i, (i < N)%nat -> Rabs (nth i c 0 - psum w (Datatypes.S i)) <= delta) ->
+  forall i, (i < N)%nat ->
+  Rabs (INR (count_occ Nat.eq_dec (res_loop (ROpsE e) c N u1 N 0 0) i) - INR N * nth i w 0) < 1 + 2 * INR N * delta.
+Proof. exact (count_bound_rounded e w c u1 delta). Qed.
+
 (* ---- prior-mixing variant ---- *)
 
 (* num_prior_particles = floor(N ratio); at least one particle is resampled.  This is the floor of the REAL product;
@@ -214,6 +239,68 @@ Theorem C07p_count_bound {P} (ratio : R) (ps : list P) (lw : list R) (u1 : R) :
    Rabs (INR (count_occ Nat.eq_dec (rpar ROps ratio ps lw u1) i) - INR (length tl) * exp (nth i tl 0)) < 1).
 Proof. exact (prior_count_bound ratio ps lw u1). Qed.
 
+(* ---- the partition of the prior variant as a relation (exact ties at the split included) ----
+   replaced_set = the first floor(ratio N) indices of the model's sorted order (never copied: replaced by prior draws),
+   survivor_set = the remaining ones (tmp_particles, resampled); both are built from the functions the extracted
+   model runs (sort_idx, num_prior). *)
+
+(* for EVERY input: floor(ratio N) particles are replaced; replaced + survivors enumerate 0..N-1 without duplicates;
+   every replaced particle's weight is <= every survivor's weight; hence a particle strictly heavier than some
+   survivor is a survivor, and one strictly lighter than some replaced particle is replaced *)
+Theorem C07p_partition_relational (e : R -> R) (lw : list R) (ratio : R) :
+  (0 < length lw)%nat -> 0 <= ratio < 1 ->
+  let N := length lw in
+  let k := num_prior (ROpsE e) N ratio in
+  let Rs := replaced_set (ROpsE e) ratio lw in
+  let Ks := survivor_set (ROpsE e) ratio lw in
+  let w := fun i => e (nth i lw 0) in
+  (INR k <= INR N * ratio < INR k + 1) /\ (k < N)%nat /\
+  length Rs = k /\ length Ks = (N - k)%nat /\
+  Permutation (Rs ++ Ks) (seq 0 N) /\ NoDup (Rs ++ Ks) /\
+  (forall r s, In r Rs -> In s Ks -> w r <= w s) /\
+  (forall i, (i < N)%nat -> (exists s, In s Ks /\ w s < w i) -> In i Ks /\ ~ In i Rs) /\
+  (forall i, (i < N)%nat -> (exists r, In r Rs /\ w i < w r) -> In i Rs /\ ~ In i Ks).
+Proof. exact (partition_relational_R e lw ratio). Qed.
+
+(* the same at every arithmetic whose <= is total and transitive (what std::sort requires of its comparison;
+   true of the reals and of doubles without NaN): the structural part does not depend on the reals *)
+Theorem C07p_partition_total_order (S : SOps) (ratio : T S) (lw : list (T S)) :
+  (forall a b : T S, sleb S a b = true \/ sleb S b a = true) ->
+  (forall a b c : T S, sleb S a b = true -> sleb S b c = true -> sleb S a c = true) ->
+  let N := length lw in
+  let k := num_prior S N ratio in
+  let Rs := replaced_set S ratio lw in
+  let Ks := survivor_set S ratio lw in
+  length Rs = k /\ length Ks = (N - k)%nat /\
+  Permutation (Rs ++ Ks) (seq 0 N) /\ NoDup (Rs ++ Ks) /\
+  (forall r s, In r Rs -> In s Ks -> sleb S (wt S lw r) (wt S lw s) = true).
+Proof. intros H1 H2. exact (partition_g S H1 H2 ratio lw). Qed.
+
+(* ANY admissible choice among exact ties (R', K': a duplicate-free split of 0..N-1 with floor(ratio N) replaced
+   particles, none heavier than a survivor) replaces every particle lighter than the (k+1)-th smallest weight t and
+   keeps every particle heavier than t: only the particles tied at t are free.  This is the clause the oracle of
+   props/C07.py decides on the implementation's output (partition_clause). *)
+Theorem C07p_ties_any_choice (e : R -> R) (lw : list R) (ratio : R) (R' K' : list nat) :
+  (0 < length lw)%nat -> 0 <= ratio < 1 ->
+  let N := length lw in
+  let k := num_prior (ROpsE e) N ratio in
+  let w := fun i => e (nth i lw 0) in
+  let t := w (nth k (sort_idx (ROpsE e) (map e lw)) 0%nat) in
+  Permutation (R' ++ K') (seq 0 N) -> length R' = k ->
+  (forall r s, In r R' -> In s K' -> w r <= w s) ->
+  forall i, (i < N)%nat ->
+    (w i < t -> In i R' /\ ~ In i K') /\ (t < w i -> In i K' /\ ~ In i R').
+Proof. exact (admissible_forced_R e lw ratio R' K'). Qed.
+
+(* every parent the prior variant reports for a resampled particle is a survivor, never a replaced particle *)
+Theorem C07p_parents_survive (S : SOps) {P} (init : nat -> list P) ratio (ps : list P) lw u1 :
+  length lw = length ps -> (0 < length ps)%nat ->
+  length (init (num_prior S (length ps) ratio)) = num_prior S (length ps) ratio ->
+  forall j, (j < length ps - num_prior S (length ps) ratio)%nat ->
+  exists p, nth (num_prior S (length ps) ratio + j) (snd (@resample_prior S P init ratio ps lw u1)) 0%Z = Z.of_nat p
+            /\ In p (survivor_set S ratio lw) /\ ~ In p (replaced_set S ratio lw).
+Proof. exact (parents_survive S init ratio ps lw u1). Qed.
+
 (* ---- the hypotheses are satisfiable; the executable model on exact rationals ---- *)
 
 Example C07_hypotheses_satisfiable :
@@ -241,6 +328,34 @@ Example C07_concrete_Q :
   fst (fst (resample [10; 11; 12; 13]%nat ([1#2; 0; 1#8; 3#8]%Q : list (T QOps)) (1#5)%Q)) = [10; 10; 13; 13]%nat.
 Proof. vm_compute. repeat split. Qed.
 
+(* cumulative weights that fall short of the last comb point (sum 99/100, last weight 0: the situation of
+   C07_rounding_surplus_Q): the hypotheses of C07_count_bound_cumulative hold, the clamped list ends in 1 *)
+Example C07_cumulative_hypotheses_satisfiable :
+  let c := [/ 2; 99 / 100; 99 / 100] in let u1 := 33 / 100 in
+  chain 0 c /\ clamp c = [/ 2; 99 / 100; 1] /\ 0 < u1 /\ u1 * INR (length c) < 1.
+Proof.
+  simpl. repeat split; try lra.
+  unfold Rmin. destruct (Rle_dec (/ 2) 1); [|lra]. destruct (Rle_dec (99 / 100) 1); [reflexivity | lra].
+Qed.
+
+(* exact ties STRADDLING the split (QOps: sexp = identity, the lists are the weights; N = 8, ratio 1/4: 2 replaced).
+   a) six particles tied at 1/10 followed by two heavier ones: two of the tied are replaced, both heavy ones survive;
+   b) four exact zeros first, the heavy particles at the highest indices: two zeros replaced, all heavy ones survive,
+      and resampling the survivors (weights 0 0 1/10 2/10 3/10 4/10, u1 = 1/12) selects 4 5 6 6 7 7;
+   c) the same weights with the heavy ones first. *)
+Example C07p_ties_straddle_Q :
+  let r := (1#4)%Q in
+  let a := [1#10; 1#10; 1#10; 1#10; 1#10; 1#10; 2#10; 2#10]%Q in
+  let b := [0; 0; 0; 0; 1#10; 2#10; 3#10; 4#10]%Q in
+  let c := [4#10; 3#10; 2#10; 1#10; 0; 0; 0; 0]%Q in
+  num_prior QOps 8 r = 2%nat /\
+  replaced_set QOps r a = [0; 1]%nat /\ survivor_set QOps r a = [2; 3; 4; 5; 6; 7]%nat /\
+  replaced_set QOps r b = [0; 1]%nat /\ survivor_set QOps r b = [2; 3; 4; 5; 6; 7]%nat /\
+  map (fun p => nth p (survivor_set QOps r b) 0%nat)
+      (res_parents QOps (map (fun i => nth i b 0%Q) (survivor_set QOps r b)) (1#12)%Q) = [4; 5; 6; 6; 7; 7]%nat /\
+  replaced_set QOps r c = [4; 5]%nat /\ survivor_set QOps r c = [6; 7; 3; 2; 1; 0]%nat.
+Proof. vm_compute. repeat split; reflexivity. Qed.
+
 Print Assumptions C07_advance_fuel.
 Print Assumptions C07_length.
 Print Assumptions C07_copy.
@@ -258,6 +373,8 @@ Print Assumptions C07_neff_formula.
 Print Assumptions C07_neff_range.
 Print Assumptions C07_lse_spec.
 Print Assumptions C07_lse_normalises.
+Print Assumptions C07_count_bound_cumulative.
+Print Assumptions C07_count_bound_rounded.
 Print Assumptions C07p_num_prior.
 Print Assumptions C07p_partition.
 Print Assumptions C07p_parents.
@@ -268,3 +385,7 @@ Print Assumptions C07p_fresh_left.
 Print Assumptions C07p_uniform.
 Print Assumptions C07p_reports_N.
 Print Assumptions C07p_count_bound.
+Print Assumptions C07p_partition_relational.
+Print Assumptions C07p_partition_total_order.
+Print Assumptions C07p_ties_any_choice.
+Print Assumptions C07p_parents_survive.
